@@ -251,6 +251,16 @@ class Evaluator:
                         raise Unsupported("downcast to wrong variant")
                 else:
                     raise Unsupported("downcast of %r" % (val,))
+            elif isinstance(e, list) and e[0] == "[c]":
+                seq = val.items() if isinstance(val, BufView) else val
+                if isinstance(seq, ExtPlace):
+                    seq = self.ext(seq.path)
+                if not isinstance(seq, (tuple, list)):
+                    raise Unsupported("constant index of %r" % (val,))
+                i = len(seq) - e[1] if len(e) > 3 and e[3] else e[1]
+                if not 0 <= i < len(seq):
+                    raise Unsupported("constant index %d out of range %d" % (i, len(seq)))
+                val = seq[i]
             elif isinstance(e, list) and e[0] == "[k]":
                 if isinstance(val, BufView):
                     val = val.get(e[1])
@@ -715,6 +725,25 @@ class Evaluator:
             if uns and r < 0:
                 return Enum("core::option::Option", 0, "None", [])
             return Enum("core::option::Option", 1, "Some", [r])
+        if short.startswith("core::num::<impl ") and short.split("::")[-1] in ("from_be_bytes", "from_le_bytes", "from_ne_bytes") and len(args) == 1 \
+                and isinstance(args[0], (tuple, list)) and all(isinstance(q, int) for q in args[0]):
+            bs = list(args[0]) if short.endswith("from_be_bytes") else list(reversed(args[0]))
+            v = 0
+            for q in bs:
+                v = (v << 8) | (q & 255)
+            ity = short[len("core::num::<impl "):].split(">")[0]
+            if ity.startswith("i") and v >= 1 << (8 * len(bs) - 1):
+                v -= 1 << (8 * len(bs))
+            return v
+        if short.startswith("core::option::Option::<") and short.split("::")[-1] in ("ok_or", "ok_or_else") and len(args) == 2 and isinstance(args[0], Enum):
+            o = args[0]
+            if o.name == "Some":
+                return Enum("core::result::Result", 0, "Ok", [o.fields[0]])
+            if short.endswith("ok_or"):
+                return Enum("core::result::Result", 1, "Err", [args[1]])
+        if short.endswith("ops::try_trait::FromResidual::from_residual") and len(args) == 1 and isinstance(args[0], Enum) and args[0].name in ("Err", "None"):
+            o = args[0]
+            return Enum(o.adt, o.idx, o.name, list(o.fields))
         if sh0 in ("core::cmp::Ord::cmp", "core::cmp::PartialOrd::partial_cmp") and len(args) == 2:
             a, b = self.deref_val(args[0]), self.deref_val(args[1])
             if all(isinstance(q, (int, float)) and not isinstance(q, bool) for q in (a, b)):
@@ -758,6 +787,13 @@ class Evaluator:
             if o.name == "None":
                 return o
             return Enum(o.adt, o.idx, o.name, [self.deref_val(o.fields[0])])
+        if short.startswith("core::option::Option::<T>::") and args and isinstance(args[0], Ref) and short.split("::")[-1] in ("is_some", "is_none"):
+            try:
+                o_ = self.deref_val(args[0])
+            except Unsupported:
+                o_ = None
+            if isinstance(o_, Enum):
+                args = [o_] + list(args[1:])
         if short.startswith("core::option::Option::<T>::") and args and isinstance(args[0], Enum):
             meth = short.split("::")[-1]
             o = args[0]
